@@ -136,8 +136,25 @@ GUARDS = [
     (['C02', 'C03'], 'sorted_amounts_skips_null_only', 'src/balance.cc', r'void\s+balance_t::sorted_amounts\s*\(', [
         'if (! pair.second.is_null())']),
     (['C03'], 'balance_less_than_loop', 'src/value.cc', r'bool\s+value_t::is_less_than\s*\(\s*const\s+value_t&\s*val\s*\)\s*const\s*\{', [
-        'case BALANCE: switch (val.type()) { case INTEGER: case AMOUNT: { bool no_amounts = true;',
-        'if (pair.second >= val) return false; no_amounts = false; } return ! no_amounts; }']),
+        'case BALANCE: switch (val.type()) { case INTEGER: case AMOUNT: { bool no_amounts = true;'
+        ' balance_t::amounts_array sorted; as_balance().sorted_amounts(sorted);'
+        ' foreach (const amount_t * amount, sorted) {'
+        ' if (*amount >= val) return false; no_amounts = false; } return ! no_amounts; }',
+        'case BALANCE: return val.to_amount() > to_amount();']),
+    (['C03'], 'balance_greater_than_loop', 'src/value.cc', r'bool\s+value_t::is_greater_than\s*\(\s*const\s+value_t&\s*val\s*\)\s*const\s*\{', [
+        'case BALANCE: switch (val.type()) { case INTEGER: case AMOUNT: { bool no_amounts = true;'
+        ' balance_t::amounts_array sorted; as_balance().sorted_amounts(sorted);'
+        ' foreach (const amount_t * amount, sorted) {'
+        ' if (*amount <= val) return false; no_amounts = false; } return ! no_amounts; }',
+        'case BALANCE: return val.to_amount() < to_amount();']),
+    (['C03', 'C19'], 'sorted_amounts_stable_sort_by_commodity', 'src/balance.cc', r'void\s+balance_t::sorted_amounts\s*\(', [
+        'foreach (const amounts_map::value_type& pair, amounts) if (! pair.second.is_null()) sorted.push_back(&pair.second);',
+        'std::stable_sort( sorted.begin(), sorted.end(), [](const amount_t * left, const amount_t * right) {'
+        ' return commodity_t::compare_by_commodity()(left, right) < 0; });']),
+    (['C03', 'C19'], 'compare_by_commodity_base_symbol_first', 'src/commodity.cc', r'int\s+commodity_t::compare_by_commodity::operator\(\)\s*\(', [
+        'commodity_t& leftcomm(left->commodity()); commodity_t& rightcomm(right->commodity());',
+        'int cmp = leftcomm.base_symbol().compare(rightcomm.base_symbol()); if (cmp != 0) { return cmp; }',
+        'if (! leftcomm.has_annotation() && rightcomm.has_annotation()) { return -1; }']),
     (['C03'], 'value_div_cells', 'src/value.cc', r'value_t&\s*value_t::operator/=\s*\(\s*const\s+value_t&\s*val\s*\)\s*\{', [
         'case INTEGER: switch (val.type()) { case INTEGER: if (val.as_long() == 0)',
         'as_balance_lval() /= val.as_amount();']),
